@@ -275,7 +275,16 @@ def gen_model(seed, nns=None, allow_cr=False, with_methods=True,
         if with_methods and r.random() < 0.5:
             mparams = []
             for q in range(r.randint(0, 3)):
-                mparams.append({'name': 'Ip%d' % q,
+                # (some parameter names collide with names pywbem uses
+                # internally when it hands the call to its observers)
+                pname = 'Ip%d' % q
+                if r.random() < 0.12:
+                    pname = r.choice(['method', 'Method', 'conn_id', 'Params',
+                                      'namespace'])
+                    if any(x['name'].lower() == pname.lower()
+                           for x in mparams):
+                        pname = 'Ip%d' % q
+                mparams.append({'name': pname,
                                 'type': r.choice(SIMPLE_TYPES),
                                 'array': r.random() < 0.3,
                                 'in': True, 'out': r.random() < 0.3})
